@@ -187,7 +187,7 @@ def run(ctx):
     rep.floor('U2', 8)
     rep.floor('U4', 6 * 2 + 15)
     rep.floor('U6', 1)
-    rep.floor('U1d', 8)
+    rep.floor('U1d', 16)
     fixtures(ctx)
 
 
@@ -259,8 +259,9 @@ def roundtrip(rep, dec, lk, lf, n, cells, xs, loc):
 def arbitrary(rep, dec, lk):
     """decoder on completely symbolic bytes"""
     loc = dec.loc(dec.entry.instrs[0])
-    for num in list(range(0, 7)) + ['>6']:
-        sym = 'a_utf_decode[num=%s]' % num
+    for num, with_val in [(n_, w_) for w_ in (True, False) for n_ in list(range(0, 7)) + ['>6']]:
+        # the decoder has two copies of its continuation loop: with a value pointer and without one (the form a_utf_length uses)
+        sym = 'a_utf_decode[num=%s%s]' % (num, '' if with_val else ', val=NULL')
         try:
             dom = bit.Bit()
             if num == '>6':
@@ -271,7 +272,7 @@ def arbitrary(rep, dec, lk):
                 nv = BV.const(num, 64)
                 cap = num
             it = symx.Interp(dom, lk, max_paths=20000)
-            leaves = it.run(dec, [Ptr('in', 0), nv, Ptr('out', 0)])
+            leaves = it.run(dec, [Ptr('in', 0), nv, Ptr('out', 0) if with_val else NULL])
         except Unsupported as e:
             rep.unk('U1d', sym, str(e), loc=loc)
             continue
@@ -312,7 +313,7 @@ def arbitrary(rep, dec, lk):
                     if not (rv == 6 and False):
                         probs.append('accepts length %d although the lead byte announces more' % rv)
         if probs:
-            rep.bad('U1d', sym, '; '.join(sorted(set(probs))[:3]), loc=loc, key='a_utf_decode: arbitrary bytes num=%s' % num)
+            rep.bad('U1d', sym, '; '.join(sorted(set(probs))[:3]), loc=loc, key='a_utf_decode: arbitrary bytes num=%s%s' % (num, '' if with_val else ' val=NULL'))
         else:
             rep.ok('U1d', sym, '%d paths: every read < num, result <= num, multi-byte results only with continuation bytes (%d accepting paths)'
                    % (len(leaves), nacc), loc=loc, sample={'num': str(num), 'paths': len(leaves)})
